@@ -45,7 +45,7 @@ class Ty:
 
     @property
     def is_container(self):
-        return self.kind in ('List', 'Set', 'Dict', 'Np1', 'Np2')
+        return self.kind in ('List', 'Set', 'Dict', 'Np1', 'Np2', 'ODict')
 
 
 INT = Ty('Int')
@@ -115,6 +115,8 @@ def _parse(s):
         return Opt(args[0]), rest
     if name in ('List', 'Set', 'Np1', 'Np2'):
         return Ty(name, args), rest
+    if name == 'ODict':
+        return Ty('ODict', args), rest
     if name == 'Dict':
         return Ty('Dict', args), rest
     if name == 'Tuple':
@@ -162,6 +164,9 @@ def sort_of(t):
         info.sort = d.create()
         k = Ty('List', t.args).key
         _sorts[Ty('Np1', t.args).key] = info
+    elif t.kind == 'ODict':
+        # insertion-ordered dict: the sequence of its (key, value) items (keys pairwise distinct)
+        info.sort = sort_of(Ty('List', (Ty('Tuple', t.args),)))
     elif t.kind == 'Np2':
         inner = sort_of(t.args[0])
         d = z3.Datatype('Mat_' + t.args[0].key)
